@@ -31,16 +31,33 @@
 (*                   must set an error code; no crash, hang or leak                        *)
 (* Not judged but reported (stats): agreement of the logged stream operations with the     *)
 (* Sink.tla model ("drift").                                                               *)
+(*                                                                                         *)
+(* The state is kept small (TLC fingerprints it at every event): value bytes never enter   *)
+(* it.  The abstract writer runs on value *counts* (AbsVals); the reference file, the      *)
+(* arguments of the calls and the acknowledged batches are referred to by their line in    *)
+(* the trace (refl, base, acked) and looked up in Tr on demand; the sink keeps the lengths *)
+(* of acc / buf (while it is tracked nothing has been lost, so acc = 1..n, buf = n+1..n+m) *)
+(* and is expanded to a Sink.tla record for every logged stream operation.                 *)
+(* Compact events: a call event of runs 2..n carries "k" = ordinal of the call in the      *)
+(* history instead of the arguments (they are those of line base + k of run 1); a Close    *)
+(* event carries "sameAsRef" instead of "bytes" when the bytes equal those of run 1.       *)
 EXTENDS WriterSink, ParquetFile, TLC, Json, IOUtils
-VARIABLES l, skip, bad, stats, ref, run, ack
-\* ack: per column, the concatenated [defs, vals] of every write_batch call that returned OK in this
-\*      run (the rows the writer has acknowledged), whatever happened to other calls
+VARIABLES l, skip, bad, stats, refl, base, run, acked
+\* refl   line of the Close event of run 1 (0 = none yet)      base  line of the Create event of run 1
+\* acked  lines of the argument-bearing events of the write_batch calls that returned OK in this run
 Tr == ndJsonDeserialize(IOEnv.TRACE)
-tvars == <<wst, schema, cur, done, sink, impl, l, skip, bad, stats, ref, run, ack>>
+tvars == <<wst, schema, cur, done, sink, impl, l, skip, bad, stats, refl, base, run, acked>>
 
 Ev == Tr[l]
 Has(f) == f \in DOMAIN Ev
-UnknownCap == 1000000
+Ref == IF refl = 0 THEN <<>> ELSE Tr[refl].bytes
+\* the event that carries the arguments of the current call
+ArgLine == IF Has("k") THEN base + Ev.k ELSE l
+Arg == Tr[ArgLine]
+ArgOk == ArgLine \in 1..Len(Tr) /\ Tr[ArgLine].e = Ev.e /\ (Has("k") => base > 0)
+\* the bytes the sink holds at an OK close
+EvBytes == IF Has("sameAsRef") THEN Ref ELSE Ev.bytes
+AbsVals(vals) == [i \in 1..Len(vals) |-> <<>>]
 NoRun == [failedOps |-> {}, tracked |-> FALSE, refRun |-> FALSE, pos |-> 0]
 \* bytes the library handed to the stream in the logged operations
 Handed(ops) == FoldLeft(LAMBDA a, o : IF o.op = "w" THEN a + o.n ELSE a, 0, ops)
@@ -51,16 +68,18 @@ FailedKinds(ops) == {ops[i].op : i \in {j \in 1..Len(ops) : ~ops[j].ok}}
 
 \* ---- the logged stream operations against Sink.tla (deterministic: the logged byte count
 \*      resolves stdio's freedom); tracking stops at the first device failure or disagreement
+SkExpand(k) == [k EXCEPT !.acc = SkRange(0, k.acc), !.buf = SkRange(k.acc, k.buf)]
+SkLengths(s) == [s EXCEPT !.acc = Len(s.acc), !.buf = Len(s.buf)]
 OpStep(a, o) ==
     IF ~a.tracked THEN a
-    ELSE LET s == a.s
+    ELSE LET s == SkExpand(a.s)
              s1 == IF o.op = "w" THEN SkWritePre(s, o.n) ELSE [s EXCEPT !.ops = @ + 1]
              p == IF o.op = "w" /\ o.ok /\ o.acc >= Len(s.acc) THEN o.acc - Len(s.acc) ELSE Len(s1.buf)
              x == IF o.op = "c" THEN CHOOSE y \in SCloseR(s) : TRUE ELSE SkPush(s1, p)
              match == /\ o.acc >= Len(s.acc)
                       /\ (o.op = "w" => p \in SkPushChoices(s1))
                       /\ Len(x.acc) = o.acc /\ x.last = o.ok /\ x.failed = o.df
-         IN IF match THEN [a EXCEPT !.s = x, !.tracked = ~x.failed, !.n = @ + 1]
+         IN IF match THEN [a EXCEPT !.s = SkLengths(x), !.tracked = ~x.failed, !.n = @ + 1]
             ELSE [a EXCEPT !.tracked = FALSE, !.drift = @ + 1]
 Track(ops) == FoldLeft(OpStep, [s |-> sink, tracked |-> run.tracked, drift |-> 0, n |-> 0], ops)
 
@@ -74,27 +93,32 @@ Track(ops) == FoldLeft(OpStep, [s |-> sink, tracked |-> run.tracked, drift |-> 0
 \*  "undecided": page bodies the TLA+ reader cannot decode (GZIP, ZSTD).
 FlatCol(t, c) == [defs |-> Flatten([g \in 1..Len(t) |-> t[g].cols[c].defs]),
                   vals |-> Flatten([g \in 1..Len(t) |-> t[g].cols[c].vals])]
-NothingLost == ~Ev.sf /\ Ev.acc = run.pos + Handed(EvOps) /\ Len(Ev.bytes) = Ev.acc
-Completeness(bs) ==
+AckCol(c) == LET evs == SelectSeq(acked, LAMBDA j : Tr[j].c + 1 = c)
+             IN [defs |-> Flatten([i \in 1..Len(evs) |-> RowDefs(c, Tr[evs[i]].n, Tr[evs[i]].withDefs, Tr[evs[i]].defs)]),
+                 vals |-> Flatten([i \in 1..Len(evs) |-> Tr[evs[i]].vals])]
+NothingLost == ~Ev.sf /\ Ev.acc = run.pos + Handed(EvOps) /\ Len(EvBytes) = Ev.acc
+SameAsRef == refl # 0 /\ (Has("sameAsRef") \/ Ev.bytes = Ref)
+Completeness ==
     IF NothingLost THEN "yes"
-    ELSE IF ref # <<>> /\ bs = ref THEN "yes"
-    ELSE LET f == ParseFile(bs)
+    ELSE IF SameAsRef THEN "yes"
+    ELSE LET f == ParseFile(EvBytes)
          IN IF ~f.ok THEN (IF f.why = "codec-not-modelled" THEN "undecided" ELSE "no")
-            ELSE IF Len(f.leaves) = NCols /\ \A c \in 1..NCols : FlatCol(TableOf(f), c) = ack[c] THEN "yes" ELSE "no"
-CompleteWhy(bs) == IF NothingLost \/ (ref # <<>> /\ bs = ref) THEN "" ELSE LET f == ParseFile(bs) IN IF f.ok THEN "parses-but-table-differs-from-acknowledged-rows" ELSE f.why
+            ELSE IF Len(f.leaves) = NCols /\ \A c \in 1..NCols : FlatCol(TableOf(f), c) = AckCol(c) THEN "yes" ELSE "no"
+CompleteWhy == IF NothingLost \/ SameAsRef THEN ""
+               ELSE LET f == ParseFile(EvBytes) IN IF f.ok THEN "parses-but-table-differs-from-acknowledged-rows" ELSE f.why
 
 \* ---- prefixes: v[k+1] is the verdict for cut k: 0 = NULL returned but no error code set,
 \*      1..8999 = rejected with that code, 9001 = opened, 9002 = crash/hang, 9003 = rejected but
 \*      error message not terminated, 9004 = leak
-PrefixWhy(cut) == LET f == ParseFile(SubSeq(ref, 1, cut)) IN IF f.ok THEN "" ELSE f.why
+PrefixWhy(cut) == LET f == ParseFile(SubSeq(Ref, 1, cut)) IN IF f.ok THEN "" ELSE f.why
 PrefixVerdict ==
     LET v == Ev.v
         cuts(code) == {k \in 1..Len(v) : v[k] = code}
         op == Ev.opened
-        parsed == [i \in 1..Len(op) |-> ParseFile(SubSeq(ref, 1, op[i].cut))]
+        parsed == [i \in 1..Len(op) |-> ParseFile(SubSeq(Ref, 1, op[i].cut))]
         undecided == {i \in 1..Len(op) : ~parsed[i].ok /\ parsed[i].why = "codec-not-modelled"}
-    IN  (IF ref = <<>> THEN {"prefix:no-reference-file"} ELSE {})
-        \cup (IF Len(v) # Len(ref) \/ Ev.lo # 0 THEN {"prefix:cuts-missing"} ELSE {})
+    IN  (IF refl = 0 THEN {"prefix:no-reference-file"} ELSE {})
+        \cup (IF Len(v) # Len(Ref) \/ Ev.lo # 0 THEN {"prefix:cuts-missing"} ELSE {})
         \cup (IF cuts(0) # {} THEN {"prefix:rejected-without-error-code"} ELSE {})
         \cup (IF cuts(9003) # {} THEN {"prefix:error-message-unterminated"} ELSE {})
         \cup (IF cuts(9002) # {} THEN {"prefix:fault"} ELSE {})
@@ -114,7 +138,7 @@ PrefixDetail ==
        \o " faults=" \o ToString(Ev.faults)
 
 \* ---- verdict on one event
-CallVerdict(can, name) == IF Ev.st = 0 /\ wst = "open" /\ ~can THEN {name} ELSE {}
+CallVerdict(can, name) == IF ~ArgOk THEN {"unknown-event"} ELSE IF Ev.st = 0 /\ wst = "open" /\ ~can THEN {name} ELSE {}
 CloseVerdict(comp) ==
     LET closeOk == Ev.st = 0
         fo == run.failedOps \cup FailedKinds(EvOps)
@@ -122,7 +146,7 @@ CloseVerdict(comp) ==
         ackBad == closeOk /\ ~WSAckComplete(closeOk, comp # "no")
         repBad == ~WSFailReported(Ev.sf, anyErr)
     IN (IF run.refRun /\ ~closeOk THEN {"ref:close-failed"} ELSE {})
-       \cup CallVerdict(CanClose, "close-not-enabled")
+       \cup (IF Ev.st = 0 /\ wst = "open" /\ ~CanClose THEN {"close-not-enabled"} ELSE {})
        \cup (IF ackBad \/ repBad
            THEN (IF fo = {} THEN {"sink:close-ok-but-bytes-missing"}
                  ELSE IF repBad THEN {"sink:failure-never-reported:" \o OpName(k) : k \in fo}
@@ -130,15 +154,16 @@ CloseVerdict(comp) ==
            ELSE {})
 CloseDetail(comp) ==
     LET anyErr == impl.anyErr \/ Ev.st # 0
-    IN "accepted=" \o ToString(Ev.acc) \o " of " \o ToString(Len(ref))
+    IN "accepted=" \o ToString(Ev.acc) \o " of " \o ToString(Len(Ref))
        \o (IF ~WSFailReported(Ev.sf, anyErr) THEN " fail-reported:violated" ELSE " fail-reported:ok")
-       \o (IF Ev.st = 0 /\ comp = "no" THEN " ack-complete:violated(" \o CompleteWhy(Ev.bytes) \o ")" ELSE " ack-complete:ok")
+       \o (IF Ev.st = 0 /\ comp = "no" THEN " ack-complete:violated(" \o CompleteWhy \o ")" ELSE " ack-complete:ok")
        \o " failed-ops=" \o ToString(run.failedOps \cup FailedKinds(EvOps))
 
 Verdict(comp) ==
     CASE Ev.e = "Create" ->
             IF ~Ev.ok THEN {"create-failed"} ELSE IF CanCreate(Ev.cols) THEN {} ELSE {"create-not-enabled"}
-      [] Ev.e = "WriteBatch" -> CallVerdict(CanWriteBatch(Ev.c + 1, Ev.n, Ev.withDefs, Ev.defs, Ev.vals), "write-batch-not-enabled")
+      [] Ev.e = "WriteBatch" ->
+            CallVerdict(ArgOk /\ CanWriteBatch(Arg.c + 1, Arg.n, Arg.withDefs, Arg.defs, AbsVals(Arg.vals)), "write-batch-not-enabled")
       [] Ev.e = "NewRowGroup" -> CallVerdict(CanNewRowGroup, "new-row-group-not-enabled")
       [] Ev.e = "Close" -> CloseVerdict(comp)
       [] Ev.e = "Abort" ->
@@ -155,7 +180,6 @@ Detail(comp) == CASE Ev.e = "Close" -> CloseDetail(comp)
 
 \* ---- state update for an allowed event
 AbsCall(A) == IF wst = "open" THEN (IF Ev.st = 0 THEN A ELSE Fail) ELSE UNCHANGED wvars
-SinkAfter == LET t == Track(EvOps) IN t
 CallUpdate(closing, comp) ==
     LET t == Track(EvOps)
     IN /\ sink' = t.s
@@ -167,63 +191,64 @@ CallUpdate(closing, comp) ==
                                  !.sinkops = @ + t.n, !.drift = @ + t.drift,
                                  !.okcloses = IF closing /\ Ev.st = 0 /\ ~run.refRun THEN @ + 1 ELSE @,
                                  !.spurious = IF Ev.st # 0 /\ ~Ev.sf THEN @ + 1 ELSE @,
-                                 !.parsedcloses = IF closing /\ Ev.st = 0 /\ ~NothingLost /\ Ev.bytes # ref THEN @ + 1 ELSE @,
+                                 !.parsedcloses = IF closing /\ Ev.st = 0 /\ ~NothingLost /\ ~SameAsRef THEN @ + 1 ELSE @,
                                  !.undecidedcloses = IF closing /\ Ev.st = 0 /\ comp = "undecided" THEN @ + 1 ELSE @]
 
 Apply(comp) ==
     CASE Ev.e = "Create" ->
             /\ Create(Ev.cols)
-            /\ sink' = SkNew(Ev.cap, Ev.arm)
+            /\ sink' = SkLengths(SkNew(Ev.cap, Ev.arm))
             /\ impl' = [WSIdle EXCEPT !.owned = (Ev.kind = "p"), !.exists = (Ev.kind = "p"), !.handle = TRUE]
-            /\ run' = [failedOps |-> {}, tracked |-> TRUE, refRun |-> ref = <<>>, pos |-> 0]
+            /\ run' = [failedOps |-> {}, tracked |-> TRUE, refRun |-> refl = 0, pos |-> 0]
             /\ stats' = [stats EXCEPT !.events = @ + 1, !.runs = @ + 1]
-            /\ ack' = [c \in 1..Len(Ev.cols) |-> [defs |-> <<>>, vals |-> <<>>]]
-            /\ UNCHANGED ref
+            /\ acked' = <<>>
+            /\ base' = IF refl = 0 THEN l ELSE base
+            /\ UNCHANGED refl
       [] Ev.e = "WriteBatch" ->
-            /\ AbsCall(WriteBatch(Ev.c + 1, Ev.n, Ev.withDefs, Ev.defs, Ev.vals)) /\ CallUpdate(FALSE, comp) /\ UNCHANGED ref
-            /\ ack' = IF Ev.st # 0 THEN ack
-                      ELSE [ack EXCEPT ![Ev.c + 1] = [defs |-> @.defs \o RowDefs(Ev.c + 1, Ev.n, Ev.withDefs, Ev.defs),
-                                                      vals |-> @.vals \o Ev.vals]]
-      [] Ev.e = "NewRowGroup" -> AbsCall(NewRowGroup) /\ CallUpdate(FALSE, comp) /\ UNCHANGED <<ref, ack>>
+            /\ AbsCall(WriteBatch(Arg.c + 1, Arg.n, Arg.withDefs, Arg.defs, AbsVals(Arg.vals))) /\ CallUpdate(FALSE, comp)
+            /\ acked' = IF Ev.st # 0 THEN acked ELSE Append(acked, ArgLine)
+            /\ UNCHANGED <<refl, base>>
+      [] Ev.e = "NewRowGroup" -> AbsCall(NewRowGroup) /\ CallUpdate(FALSE, comp) /\ UNCHANGED <<refl, base, acked>>
       [] Ev.e = "Close" -> /\ AbsCall(Close) /\ CallUpdate(TRUE, comp)
-                           /\ ref' = IF run.refRun /\ Ev.st = 0 THEN Ev.bytes ELSE ref
-                           /\ UNCHANGED ack
+                           /\ refl' = IF run.refRun /\ Ev.st = 0 /\ Has("bytes") THEN l ELSE refl
+                           /\ UNCHANGED <<base, acked>>
       [] Ev.e = "Abort" -> /\ Abort
                            /\ LET t == Track(EvOps) IN sink' = t.s
                            /\ impl' = [impl EXCEPT !.handle = FALSE, !.exists = FALSE]
                            /\ stats' = [stats EXCEPT !.events = @ + 1, !.aborts = @ + 1]
-                           /\ UNCHANGED <<ref, run, ack>>
+                           /\ UNCHANGED <<refl, base, run, acked>>
       [] Ev.e = "Prefixes" ->
             /\ stats' = [stats EXCEPT !.events = @ + 1, !.cuts = @ + Len(Ev.v), !.opened = @ + Len(Ev.opened),
                                       !.undecided = IF "prefix:undecided" \in PrefixVerdict THEN @ + 1 ELSE @]
-            /\ UNCHANGED <<wst, schema, cur, done, sink, impl, ref, run, ack>>
-      [] OTHER -> UNCHANGED <<wst, schema, cur, done, sink, impl, ref, run, stats, ack>>
+            /\ UNCHANGED <<wst, schema, cur, done, sink, impl, refl, base, run, acked>>
+      [] OTHER -> UNCHANGED <<wst, schema, cur, done, sink, impl, refl, base, run, stats, acked>>
 
 Stats0 == [execs |-> 0, runs |-> 0, events |-> 0, failed |-> 0, sinkops |-> 0, drift |-> 0, okcloses |-> 0,
            spurious |-> 0, parsedcloses |-> 0, undecidedcloses |-> 0, aborts |-> 0, cuts |-> 0, opened |-> 0, undecided |-> 0]
-TInit == WSInit /\ l = 1 /\ skip = FALSE /\ bad = 0 /\ stats = Stats0 /\ ref = <<>> /\ run = NoRun /\ ack = <<>>
+TInit == WInit /\ sink = SkLengths(SkIdle) /\ impl = WSIdle /\ l = 1 /\ skip = FALSE /\ bad = 0 /\ stats = Stats0 /\ refl = 0 /\ base = 0 /\ run = NoRun /\ acked = <<>>
 
-Fresh == wst' = "none" /\ schema' = <<>> /\ cur' = <<>> /\ done' = <<>> /\ sink' = SkIdle /\ impl' = WSIdle /\ run' = NoRun /\ ack' = <<>>
+Fresh == /\ wst' = "none" /\ schema' = <<>> /\ cur' = <<>> /\ done' = <<>> /\ sink' = SkLengths(SkIdle) /\ impl' = WSIdle
+         /\ run' = NoRun /\ acked' = <<>>
 
 TReset == /\ l <= Len(Tr) /\ Ev.e = "Reset"
-          /\ Fresh /\ ref' = <<>> /\ skip' = FALSE /\ l' = l + 1 /\ UNCHANGED bad
+          /\ Fresh /\ refl' = 0 /\ base' = 0 /\ skip' = FALSE /\ l' = l + 1 /\ UNCHANGED bad
           /\ stats' = [stats EXCEPT !.execs = @ + 1]
 \* a group whose reference run was rejected is skipped as a whole (nothing to compare with)
 TRerun == /\ l <= Len(Tr) /\ Ev.e = "Rerun" /\ l' = l + 1
           /\ IF skip /\ run.refRun
-             THEN UNCHANGED <<wst, schema, cur, done, sink, impl, skip, bad, stats, ref, run, ack>>
-             ELSE Fresh /\ skip' = FALSE /\ UNCHANGED <<bad, ref, stats>>
+             THEN UNCHANGED <<wst, schema, cur, done, sink, impl, skip, bad, stats, refl, base, run, acked>>
+             ELSE Fresh /\ skip' = FALSE /\ UNCHANGED <<bad, refl, base, stats>>
 TSkip == /\ l <= Len(Tr) /\ Ev.e \notin {"Reset", "Rerun"} /\ skip
-         /\ l' = l + 1 /\ UNCHANGED <<wst, schema, cur, done, sink, impl, skip, bad, stats, ref, run, ack>>
+         /\ l' = l + 1 /\ UNCHANGED <<wst, schema, cur, done, sink, impl, skip, bad, stats, refl, base, run, acked>>
 TStep == /\ l <= Len(Tr) /\ Ev.e \notin {"Reset", "Rerun"} /\ ~skip
-         /\ LET comp == IF Ev.e = "Close" /\ Ev.st = 0 THEN Completeness(Ev.bytes) ELSE "n/a"   \* evaluated once
+         /\ LET comp == IF Ev.e = "Close" /\ Ev.st = 0 THEN Completeness ELSE "n/a"   \* evaluated once
                 v == Verdict(comp)
             IN IF v = {} THEN Apply(comp) /\ UNCHANGED <<skip, bad>>
                ELSE \* a rejected event is printed at once (one JSON line) and only counted in the state
                     /\ PrintT(ToJson([verdict |-> [l |-> l, id |-> Ev.id, e |-> Ev.e, why |-> v, detail |-> Detail(comp),
                                                    run |-> IF Has("run") THEN Ev.run ELSE ""]]))
                     /\ bad' = bad + 1
-                    /\ skip' = TRUE /\ UNCHANGED <<wst, schema, cur, done, sink, impl, stats, ref, run, ack>>
+                    /\ skip' = TRUE /\ UNCHANGED <<wst, schema, cur, done, sink, impl, stats, refl, base, run, acked>>
          /\ l' = l + 1
 
 TNext == TReset \/ TRerun \/ TSkip \/ TStep
